@@ -178,8 +178,10 @@ def run(chk):
         "upstream queries, http.RoundTripper",
         "a panic in an engine goroutine kills the harness worker; the supervising process reports the case under clause no_panic "
         "with a replay and resumes with the next case (such cases are not shrunk)",
-        "the planner is sampled, not modelled: 'for every configuration and operation' holds for the cases run; theorems over Exec.v "
-        "(exec_split, entity_join, plan_ok_sound) are the coordinator's and not part of this check yet",
+        "the planner itself is not modelled: its output is validated per plan (part C01p: the real fetch tree is translated to the "
+        "Coq plan-tree form and the verified validator tv3_static_b is evaluated on it -- acceptance gives gateway == monolith for "
+        "every universe of the contract, theorem plan_tree_valid_all_universes) where the plan lies inside the validator's fragment, "
+        "and sampled end to end over universes everywhere",
         "subgraphs answer any field their schema declares (also @external ones) -- asking for a non-owned field is caught by "
         "request_owned, not by a wrong answer; mutations, subscriptions, entity interfaces, @interfaceObject, @override, "
         "nested @requires selections and custom scalars are not generated",
@@ -239,6 +241,13 @@ def run(chk):
             chk.add_violation("tie:C01/selftest-" + mode, "seeded planner-metadata defect '%s' was not detected (rc=%s %s)" % (
                 mode, rc, out[-500:]), found_input=False)
     chk.coverage["selftest_seeded_defects"] = selftest
+
+    # translation validation of the real planner's plans against the verified plan-tree validator (tools/props/c01p.py)
+    try:
+        from props import c01p
+        c01p.run_part(chk)
+    except Exception as e:  # the part must never take the whole check down silently
+        chk.add_violation("tie:C01p/run", "plan validation part failed to run: %r" % (e,), found_input=False)
 
     vlib.conclude_differential(chk, state, more)
     attach_replays(chk)
